@@ -207,7 +207,8 @@ def run(check):
 
   init = tb.methods.get('__init__')
   if init is not None and sc is not None:
-    ps = set(init.params[1:])
+    # the limits: the parameters __init__ shares with setCapacityAndFillRate (an injected clock or a name is not a limit)
+    ps = (set(init.params[1:]) & set(sc.params[1:])) or set(init.params[1:3])
     derived = {}
     changed = True
     srcs = set(ps)
